@@ -41,6 +41,17 @@ pub open spec fn tv_same_shape<T>(a: TV<T>, b: TV<T>) -> bool { a.id == b.id && 
 /// a rehash/resize: same values, nothing known about where they are
 pub open spec fn tv_rehashed<T>(a: TV<T>, b: TV<T>) -> bool { a.elems == b.elems && a.items.len() == b.items.len() }
 
+/// `e` answered false on every element of the table stored under `hash`
+pub open spec fn rejects_all<T, E: FnMut(&T) -> bool>(e: E, tv: TV<T>, hash: u64) -> bool {
+    forall|i: int| tv.items.contains_key(i) && tv.hashes[i] == hash ==> e.ensures((&#[trigger] tv.items[i],), false)
+}
+/// the table was searched under `hash` by some closure of the caller's closure type and nothing matched
+/// (an `FnMut` passed as `&mut eq` to an earlier lookup cannot be related to its later value, so the
+/// closure is existentially quantified: this is what "the old table was consulted" can say)
+pub open spec fn searched<T, E: FnMut(&T) -> bool>(e: E, tv: TV<T>, hash: u64) -> bool {
+    exists|e1: E| #[trigger] rejects_all(e1, tv, hash)
+}
+
 #[verifier::external_body] #[verifier::accept_recursive_types(T)] pub struct HbTable<T> { _p: core::marker::PhantomData<T> }
 #[verifier::external_body] #[verifier::accept_recursive_types(T)] pub struct HbBucket<T> { _p: core::marker::PhantomData<T> }
 #[verifier::external_body] #[verifier::accept_recursive_types(T)] pub struct HbIter<T> { _p: core::marker::PhantomData<T> }
@@ -259,8 +270,17 @@ impl<T> HbTable<T> {
     pub fn find(&self, hash: u64, eq: impl FnMut(&T) -> bool) -> (r: Option<HbBucket<T>>)
         ensures match r {
             Some(b) => b@.table == self@.id && self@.items.contains_key(b@.idx) && eq.ensures((&self@.items[b@.idx],), true),
-            None => forall|i: int| self@.items.contains_key(i) && self@.hashes[i] == hash ==> eq.ensures((&#[trigger] self@.items[i],), false),
+            None => rejects_all(eq, self@, hash),
         }
+    { unimplemented!() }
+    /// hashbrown 1405/1414: `find` followed by a dereference of the bucket (the reference itself is opaque here)
+    #[verifier::external_body]
+    pub fn get(&self, hash: u64, eq: impl FnMut(&T) -> bool) -> (r: Option<&T>)
+        ensures r.is_none() ==> rejects_all(eq, self@, hash),
+    { unimplemented!() }
+    #[verifier::external_body]
+    pub fn get_mut(&mut self, hash: u64, eq: impl FnMut(&T) -> bool) -> (r: Option<&mut T>)
+        ensures r.is_none() ==> rejects_all(eq, old(self)@, hash), final(self)@ == old(self)@,
     { unimplemented!() }
     #[verifier::external_body]
     pub unsafe fn iter(&self) -> (r: HbIter<T>)
